@@ -88,7 +88,28 @@ def _digest(obj):
 # --------------------------------------------------------------------------------------------------
 # C18
 
-ROUTES = ["direct", "evolve", "copy", "deepcopy", "pickle", "evolve2"]
+ROUTES = ["direct", "evolve", "copy", "deepcopy", "pickle", "evolve2", "xpickle"]
+_XP = [None]
+
+
+def xpickle(text):
+    """`ICaseString(text)` pickled by ANOTHER interpreter (its own string-hash seed) and loaded here: whatever a pickle
+    carries, the loaded object is the case-insensitive string of `text` in this process (seeded change C18-11: a hash
+    computed at construction travelled with the pickle)"""
+    import pickle
+    import subprocess
+
+    if _XP[0] is None or _XP[0].poll() is not None:
+        code = ("import sys, json, pickle\n"
+                "sys.path.insert(0, %r)\nfrom harness import core\ncore.install_repo()\n"
+                "from str_utils import ICaseString\n"
+                "for line in sys.stdin:\n"
+                "    print(pickle.dumps(ICaseString(json.loads(line))).hex(), flush=True)\n") % core.VERIF
+        env = dict(os.environ, PYTHONHASHSEED="4242", PYTHONDONTWRITEBYTECODE="1", VERIF_REPO=core.REPO)
+        _XP[0] = subprocess.Popen([sys.executable, "-c", code], stdin=subprocess.PIPE, stdout=subprocess.PIPE, text=True, env=env)
+    _XP[0].stdin.write(json.dumps(text) + "\n")
+    _XP[0].stdin.flush()
+    return pickle.loads(bytes.fromhex(_XP[0].stdout.readline().strip()))
 
 
 def mk_icase(text, route, other):
@@ -107,6 +128,8 @@ def mk_icase(text, route, other):
         return attr.evolve(ICaseString(other), raw_str=text)
     if route == "evolve2":
         return attr.evolve(attr.evolve(ICaseString(text), raw_str=other), raw_str=text)
+    if route == "xpickle":
+        return xpickle(text)
     if route == "copy":
         return copy.copy(ICaseString(text))
     if route == "deepcopy":
@@ -341,11 +364,17 @@ def eval_bag(inp):
         b = build(r)
         irecs.append([len(b), repr(b)])
     ipairs = []
+    ne_bad = []
     for i, j in pairs:
         a, b = build(recs[i]), build(recs[j])
+        if hist is None and (i + j) % 3 == 0:
+            _ = a["zz_idle"], b[recs[j][0][0]] if recs[j] else None     # idle units looked up (defaultdict inserts them)
         e1 = a == b
+        ne = a != b
         e2 = b == a
         e3 = a == b
+        if bool(ne) == bool(e1):
+            ne_bad.append([i, j])
         r2 = repr(a)
         ipairs.append(["".join("1" if x else "0" for x in (e1, e2, e3)), len(a), None if r2 == irecs[i][1] else r2])
     ans = core.driver().ask({"op": "bag", "vt": vt, "recs": recs, "pairs": pairs, "brief": True,
@@ -353,8 +382,16 @@ def eval_bag(inp):
     props = _blank_props()
     props["C17"] = {"app": True, "nontrivial": any(any(vs for _k, vs in r) for r in recs) and len(pairs) > 0,
                     "k": bool(ans["k"]["C17"]), "o": ans["o"]["C17"]}
+    if ne_bad and props["C17"]["o"] is None:
+        # `!=` is the other face of "compare equal exactly when …" (seeded change C17-11: an explicit __ne__ looking at
+        # the raw key sets, idle units included)
+        props["C17"]["o"] = "C17.ne: a != b is not the negation of a == b"
     fails = ans.get("fail", [])
     small = None
+    if ne_bad and not fails:
+        used = sorted({x for p in ne_bad[:2] for x in p})
+        remap = {x: n for n, x in enumerate(used)}
+        small = {"kind": "bag", "vt": vt, "recs": [recs[x] for x in used], "pairs": [[remap[a], remap[b]] for a, b in ne_bad[:2]]}
     if fails:
         keep = []
         for f in fails[:4]:
